@@ -369,10 +369,18 @@ def judge(ctx, case, events, wit) -> None:
                 # in exactly that iteration yields ONE read at most one loop iteration after the period ended: own mechanism,
                 # distinct from trackers that keep running after they should have been stopped.
                 deferred = False
-                if closed_at is not None and not open_:
+                if closed_at is not None and t - closed_at[0] < EPS:
                     closed_at[3] += 1
-                    deferred = (closed_at[3] == 1 and t - closed_at[0] < EPS and 0 <= merged.iters[ei] - closed_at[2] <= 1)
+                    deferred = closed_at[3] == 1 and 0 <= merged.iters[ei] - closed_at[2] <= 1
                 suffix = "-one-loop-turn-after-" + closed_at[1] if deferred else ""
+                if deferred and open_ and st == CONNECTED and registered:
+                    # the value was registered again (or the connection came back) in the very same loop turn: the stale read of
+                    # the period that just ended must not be taken for the new period's initial read (a tracker started in that
+                    # turn needs two more turns to put its own read)
+                    mech = ("read-issued-for-unregistered-value" if closed_at[1] == "unregistration" else "read-issued-while-not-connected")
+                    ctx.violation(mech + suffix + "", w(t=rel(t), reopened_in_same_turn=True),
+                                  f"device {i} ({d['option']}): read put at {rel(t)} by the tracker that was cancelled ({closed_at[1]}) one loop turn before")
+                    continue
                 if st != CONNECTED:
                     ctx.violation("read-issued-while-not-connected" + suffix, w(t=rel(t), state=str(st)),
                                   f"device {i} ({d['option']}): GroupValueRead put on the queue at {rel(t)} while state is {st}")
